@@ -227,6 +227,10 @@ MUTANTS = [
       "                if not_echo_input and hide_cursor:\n                    termios.tcsetattr(output_fd, termios.TCSANOW, old_attr)", {"R3"}),
     M("finally-to-except", U, "read_tty", "    finally:\n        termios.tcsetattr", "    except OSError:\n        termios.tcsetattr", {"R1", "R5"}),
     M("mutate-old", U, "query_terminal", "new_attr[3] &= ~termios.ECHO", "old_attr[3] &= ~termios.ECHO", {"R2"}),
+    M("restore-reads-late-name", U, "query_terminal",
+      "        write_tty(request)\n        return read_tty(more, timeout or _query_timeout)\n    finally:\n        termios.tcsetattr(_tty_fd, termios.TCSANOW, old_attr)",
+      "        write_tty(request)\n        when = termios.TCSANOW\n        return read_tty(more, timeout or _query_timeout)\n    finally:\n        termios.tcsetattr(_tty_fd, when, old_attr)", {"R1"}),
+    M("yield-while-modified", U, "query_terminal", "        return read_tty(more, timeout or _query_timeout)\n", "        yield read_tty(more, timeout or _query_timeout)\n", {"R1"}),
     M("fallible-before-restore", U, "read_tty", "    finally:\n        termios.tcsetattr", "    finally:\n        input.extend(b'')\n        termios.tcsetattr", {"R4"}),
     M("set-before-try-draw", R, "Renderable.draw",
       "            new_attr[3] &= ~termios.ECHO\n", "            new_attr[3] &= ~termios.ECHO\n            termios.tcsetattr(output_fd, termios.TCSAFLUSH, new_attr)\n", {"R1"}),
